@@ -32,6 +32,8 @@ func c06(c *Ctx) {
 	r.NotDecided = []string{"Pollard-rho terminates with the right factors for every pq (numerical)", "RSA and DH arithmetic (math/big)",
 		"that the server's view of the key equals the client's (needs an independent server)"}
 	r.Rule("R06.W", "no variable-length big.Int.Bytes() reaches a fixed-width position (copy left-aligned, constant slice/index, bytes.Equal against a digest, stored as key); fixed-width conversions use the protocol width of their operand", 8)
+	r.Rule("R06.A", "the client's DH message is readable by a conformant server for every g_b: SHA1(data)+data is padded with 0..15 bytes to a whole block (tabulated over the data length), so the server's search over paddings 0..15 finds the hash whatever the byte length of g_b", 1)
+	c.checkTempKeyPad("R06.A")
 	r.Rule("R06.S", "success effects dominate the success exit; fingerprint sent = fingerprint matched = SHA1(PutMessage(n)PutMessage(e))[12:]", 5)
 
 	sites := c.widthSites(func(f *ssa.Function) bool {
@@ -160,7 +162,7 @@ func c06(c *Ctx) {
 		for _, b := range fp.Blocks {
 			for _, in := range b.Instrs {
 				if ret, ok := in.(*ssa.Return); ok && len(ret.Results) == 1 {
-					o := tr.OriginString(ret.Results[0])
+					o := tr.OriginString(an.RetVal(ret, 0))
 					okRet = (strings.Contains(o, "Sha1") || strings.Contains(o, "sha1.Sum")) && strings.Contains(o, "[12:")
 					r.Check(okRet, "R06.S", "fingerprint-layout:sha1[12:]", c.pos(ret.Pos()), o)
 				}
@@ -516,21 +518,4 @@ func c06Arithmetic(c *Ctx) {
 // returnedValue: the value a return statement hands back.  In a function with defers go/ssa spills results into
 // a slot: `store slot <- v; rundefers; return *slot` — the value is then the last store to the slot in the
 // returning block.
-func returnedValue(ret *ssa.Return, idx int) ssa.Value {
-	v := ret.Results[idx]
-	ld, ok := v.(*ssa.UnOp)
-	if !ok || ld.Op != token.MUL {
-		return v
-	}
-	slot, ok := ld.X.(*ssa.Alloc)
-	if !ok {
-		return v
-	}
-	b := ret.Block()
-	for i := len(b.Instrs) - 1; i >= 0; i-- {
-		if st, ok := b.Instrs[i].(*ssa.Store); ok && st.Addr == ssa.Value(slot) {
-			return st.Val
-		}
-	}
-	return v
-}
+func returnedValue(ret *ssa.Return, idx int) ssa.Value { return an.RetVal(ret, idx) }
